@@ -4,7 +4,9 @@
  * status of every live CIF and a canonical dump of every live CIF (`=` when it equals the previous dump of that CIF).
  *
  * Request:   store <op> <op> ...          (family word `iter` is accepted as well: same language)
- *   NAME  ::= <orighex>/<normhex>/<valid 0|1>  |  ~          the executor uses the original spelling only
+ *   NAME  ::= <orighex>/<normhex>/<valid 0|1>[/L]  |  ~     the executor uses the original spelling only; the suffix /L
+ *             (mkblock / mkframe only) makes the call the LENIENT one the parser uses after its error callback accepted an
+ *             invalid code: cif_create_block_internal / cif_container_create_frame_internal with lenient = 1
  *   CAT   ::= <hex> | - | ~
  *   VALUE ::= value of harness/cifio.h | ~                   (~ = NULL pointer where the API allows one)
  *   ops (c = CIF slot, H = container-handle index, L = loop-handle index, I = iterator index; every op that can return
@@ -157,6 +159,13 @@ static UChar *tokname(void) {
     free(t);
     return u;
 }
+/* NAME of mkblock / mkframe: *lenient = 1 when the token ends in "/L" */
+static UChar *tokname_len(int *lenient) {
+    size_t n;
+    *lenient = 0;
+    if (pos < ac_) { n = strlen(av[pos]); if (n >= 2 && av[pos][n - 2] == '/' && av[pos][n - 1] == 'L') *lenient = 1; }
+    return tokname();
+}
 static UChar *tokcat(void) { UChar *u = NULL; if (!unhex(tok(), &u, NULL)) bad = 1; return u; }
 /* VALUE or ~ ; *isnull tells which */
 static cif_value_tp *tokvalue(int *isnull) {
@@ -260,10 +269,11 @@ static void handle(int argc, char **argv) {
             if (!live_c(c)) SKIP();
             destroy_cif(c); OUT(" | rc=0");
         } else if (strcmp(op, "mkblock") == 0 || strcmp(op, "getblock") == 0) {
-            int c = tokint(); UChar *nm = tokname(); cif_block_tp *b = NULL; int rc;
-            if (bad) { free(nm); break; }
+            int len = 0, c = tokint(); UChar *nm = tokname_len(&len); cif_block_tp *b = NULL; int rc;
+            if (bad || (len && (op[0] != 'm' || !nm))) { bad = 1; free(nm); break; }
             if (!live_c(c)) { free(nm); push_ch(NULL, c); SKIP(); }
-            rc = op[0] == 'm' ? cif_create_block(cifs[c].cif, nm, &b) : cif_get_block(cifs[c].cif, nm, &b);
+            rc = op[0] != 'm' ? cif_get_block(cifs[c].cif, nm, &b)
+               : len ? cif_create_block_internal(cifs[c].cif, nm, 1, &b) : cif_create_block(cifs[c].cif, nm, &b);
             free(nm);
             push_ch(rc == CIF_OK ? b : NULL, c);
             OUT(" | rc=%d", rc);
@@ -278,10 +288,11 @@ static void handle(int argc, char **argv) {
                 free(bs); out_sorted_strs(codes, n);
             }
         } else if (strcmp(op, "mkframe") == 0 || strcmp(op, "getframe") == 0) {
-            int h = tokint(); UChar *nm = tokname(); cif_frame_tp *fr = NULL; int rc;
-            if (bad) { free(nm); break; }
+            int len = 0, h = tokint(); UChar *nm = tokname_len(&len); cif_frame_tp *fr = NULL; int rc;
+            if (bad || (len && (op[0] != 'm' || !nm))) { bad = 1; free(nm); break; }
             if (!live_h(h)) { free(nm); push_ch(NULL, 0); SKIP(); }
-            rc = op[0] == 'm' ? cif_container_create_frame(chs[h].h, nm, &fr) : cif_container_get_frame(chs[h].h, nm, &fr);
+            rc = op[0] != 'm' ? cif_container_get_frame(chs[h].h, nm, &fr)
+               : len ? cif_container_create_frame_internal(chs[h].h, nm, 1, &fr) : cif_container_create_frame(chs[h].h, nm, &fr);
             free(nm);
             push_ch(rc == CIF_OK ? fr : NULL, chs[h].cif);
             OUT(" | rc=%d", rc);
